@@ -7,6 +7,7 @@
  * (each flow is released by exactly one predecessor: the code's own assert).
  */
 #include "verif.h"
+#define VERIF_RG_POST_STEP   /* the environment also acts between my atomic operation and my next access */
 #include "verif_rg.h"
 #include "parsec/parsec_internal.h"
 
@@ -67,10 +68,9 @@ void verif_env_step(int op, volatile void *loc)
         int32_t add = vin.env[g_env_k++];
         /* Rely: others only add bits, and never my bit */
         V_ASSUME((add & g_mybit) == 0);
-        g_before = g_word;   /* value my next atomic will see, minus this step */
         g_word |= add;
     }
-    g_before = g_word;
+    if (!g_lin) g_before = g_word;   /* value my atomic operation will see */
 }
 void verif_own_step(int op, volatile void *loc, int success)
 {
